@@ -82,6 +82,16 @@ func helperCmd(mode, dir string, ids []int) *exec.Cmd {
 	return cmd
 }
 
+// procDir makes the cache directory of a two-process round: a plain name on even rounds, a name
+// with glob / printf metacharacters and a blank on odd ones (the helper processes get it as an
+// argument).
+func procDir(work, base string, round int) (string, error) {
+	if round%2 == 1 {
+		base += " [r]?%d{x}-"
+	}
+	return os.MkdirTemp(work, base)
+}
+
 type procEntry struct {
 	id     int
 	pa, pd string
@@ -125,7 +135,7 @@ func (rn *runner) procFinding(kind, oracle, key, detail string) {
 }
 
 func (rn *runner) concurrentRound(r *common.RNG, round int) {
-	dir, err := os.MkdirTemp(rn.work, "conc")
+	dir, err := procDir(rn.work, "conc", round)
 	if err != nil {
 		return
 	}
@@ -223,7 +233,7 @@ func (rn *runner) concurrentRound(r *common.RNG, round int) {
 }
 
 func (rn *runner) killedRound(r *common.RNG, round int) {
-	dir, err := os.MkdirTemp(rn.work, "kill")
+	dir, err := procDir(rn.work, "kill", round)
 	if err != nil {
 		return
 	}
@@ -312,7 +322,7 @@ func (rn *runner) killedRound(r *common.RNG, round int) {
 }
 
 func (rn *runner) lockedRound(r *common.RNG, round int) {
-	dir, err := os.MkdirTemp(rn.work, "lock")
+	dir, err := procDir(rn.work, "lock", round)
 	if err != nil {
 		return
 	}
